@@ -281,18 +281,30 @@ def forwardingRequired : List (String × String) :=
 def forwardingOk (site : String × List (String × String)) : Bool :=
   forwardingRequired.all fun r => site.2.contains r
 
-/-- the branch table of `forward`: `(condition, value last assigned to sensitivity_map)` -/
+/-- the branch table of `forward`: `(map type tested, what the branch leaves in sensitivity_map)` — `forwardMap` -/
 def forwardBranches : List (String × String) :=
-  [("self.type_of_map == SensitivityMapType.UNIT", "sensitivity_map.to(kspace.device)"),
-   ("self.type_of_map == SensitivityMapType.RSS_ESTIMATE", "T.safe_divide(acs_image, acs_image_rss)"),
-   ("else", "self.espirit_calibrator(sample)")]
+  [("UNIT", "unit-fill"), ("RSS_ESTIMATE", "safe_divide:acs_image/acs_image_rss"), ("else", "espirit_calibrator")]
 
-/-- the Gaussian window as the model assumes it: `(coordinates, weight)` -/
-def windowPlan : String × String :=
-  ("torch.linspace(-1, 1, kspace_data.size(width_dim))", "torch.exp(-(gaussian_mask / self.gaussian_sigma) ** 2)")
+/-- the only write to the output key is the guarded division of the common tail -/
+def forwardOutputWrites : List String := ["T.safe_divide(sensitivity_map, sensitivity_map_norm)"]
 
-/-- guard of the window -/
-def windowGuard : String := "self.gaussian_sigma == 0 or not self.gaussian_sigma"
+/-- the Gaussian window as the model assumes it: `linspace(-1, 1, size of the width axis)`, exponent divided by sigma -/
+def windowLinspace : Int × Int × String × String := (-1, 1, "kspace_data.size(width_dim)", "self.gaussian_sigma")
+
+/-- guard of the window (`gaussianActive`): off for `None` and for `0` -/
+def windowGuardClauses : List String := ["not self.gaussian_sigma", "self.gaussian_sigma == 0"]
+
+/-- `acsKspace`: mask only / mask and window -/
+def windowProducts : String × String :=
+  ("kspace_data * sample['acs_mask'] + 0.0", "kspace_data * sample['acs_mask'] * gaussian_mask + 0.0")
+
+/-- the options `build_mri_transforms` must hand through unchanged -/
+def passthroughRequired : List (String × String) :=
+  ["estimate_sensitivity_maps", "sensitivity_maps_type", "sensitivity_maps_gaussian", "sensitivity_maps_espirit_threshold",
+   "sensitivity_maps_espirit_kernel_size", "sensitivity_maps_espirit_crop", "sensitivity_maps_espirit_max_iters"].map fun n => (n, n)
+
+/-- the one definition of `compute_sensitivity_map` -/
+def computeDefs : List (String × String) := [("direct/nn/mri_models.py", "MRIModelEngine.compute_sensitivity_map")]
 
 /-! ### exact rational execution of the window -/
 
